@@ -51,6 +51,10 @@ def classify(res, prog, ref):
         res.label("fault:cleanup" + (":raising" if any(c["raises"] for c in prog["cleanups"]) else ":ok"))
         if prog.get("cleanup_handler") and any(c["raises"] for c in prog["cleanups"]):
             res.label("fault:cleanup:raising:own-error-handler")
+    if cfg.get("continue_after_failed") and any(
+            any(a in ("failed", "error") and b == "passed" for a, b in zip(sts, sts[1:]))
+            for sts in (ref.steps or {}).values() if sts):
+        res.label("continue-after-failed-step:passing-step-after-failing-one")
     if ref.not_selected:
         res.label("has-deselected")
     if ref.untouched:
@@ -351,6 +355,14 @@ def meta_case_st():
 
 
 @st.composite
+def continue_case_st(draw):
+    prog = draw(gen.program_st(faults=False, max_features=2, outcomes=["pass", "pass", "fail", "raise"], with_async=False,
+                               cfg=gen.cfg_st(flags=("stop",), p_tags=0.3)))
+    prog["cfg"]["continue_after_failed"] = True
+    return {"kind": "cli" if draw(st.integers(0, 11)) == 0 else "run", "program": prog}
+
+
+@st.composite
 def abort_case_st(draw):
     """All steps pass; the run is aborted by a step (context.abort()), by a hook (context.abort())
     or by a KeyboardInterrupt raised in a hook."""
@@ -392,6 +404,9 @@ def explore(rec):
             48 if quick else 640)
     rec.hyp("runner-route", run_case_st(max_features=2, typed=True, cfg=gen.cfg_st(flags=("stop", "dry_run", "wip_flag"))).map(
         lambda c: dict(c, kind="runner")), 1500 if quick else 30000)
+    # the documented switch Scenario.continue_after_failed_step: the steps after a failing one still run (and may pass);
+    # the scenario and the run have failed all the same (in-process and as exit code of the child process)
+    rec.hyp("continue-after-failed-step", continue_case_st(), 1200 if quick else 25000)
     rec.hyp("aborted-runs", abort_case_st(), 1500 if quick else 30000)
     from . import c03
     rec.hyp("autoretry", c03.autoretry_case(), 700 if quick else 15000)
@@ -407,7 +422,7 @@ def required_labels(tier):
             "abort:hook-abort:before_scenario", "abort:hook-interrupt:before_scenario", "autoretry",
             "autoretry:outline-as-a-whole", "autoretry:verdict:failed", "autoretry:verdict:passed"] + \
            ["outcome:" + o for o in OUTCOMES] + ["outcome:typed", "one-text-several-step-types", "step-reconfigures-logging",
-                                                 "fault:cleanup:raising:own-error-handler"]
+                                                 "fault:cleanup:raising:own-error-handler", "continue-after-failed-step:passing-step-after-failing-one"]
 
 
 KNOWN_PREDICATES = {}
